@@ -18,6 +18,10 @@ Streams (model vs real code)
              stubs foo.pyi, foo-stubs/), queries = a file name, a prefix of one, a prefix shared by
              file names and identifiers, type-qualified and dotted strings; the .py-only trees also
              go through Model.Search.projectSearch (stream search)
+  unicode    the same two calls on trees of gen/c19_clash.gen_unicode_tree: identifiers with letters outside
+             ASCII at the start / end / in the middle (étoile, café, naïve, 变量, straße, İstanbul, µ_val,
+             cafe+U+0301, की), files written in UTF-8 with / without BOM, latin-1 / cp1252 / koi8-r / gbk /
+             euc_jp with a coding declaration, LF / CRLF / CR; ast oracle on source spelling (unicode-oracle)
 Direct oracles (the property itself, independent of the model)
   search-complete  every definition the generator wrote with that spelling, in a file that is not
                    in an ignored place, is reported (within the limits); every module / package so named
@@ -39,7 +43,7 @@ import common
 from common import short
 from gen import c19_clash as CL
 
-MODELS = ['Walk', 'Search']
+MODELS = ['Walk', 'Search', 'Prefilter']
 MANIFEST = dict(
     text='Theorems over the model of FolderIO.walk (two-pointer sync = exactly the pruning the consumer chose), '
          'recurse_find_python_folders_and_files on an ordered directory tree with the listing order as a parameter '
@@ -64,9 +68,21 @@ MANIFEST = dict(
          'oracles from generator knowledge; the three former defects stay in the run as fixed probes. Stream clash: '
          'project trees in which file names and identifiers collide (foo.py defining foo / foo_x / class foo, packages, '
          'stubs), judged by an oracle that reads every definition (path, line, column, name, type) off the files with '
-         "python's ast.",
+         "python's ast. Regex pre-filter of step 2 (Model.Prefilter): regex.search for the pattern family \\b name "
+         '(\\b unless complete) over any alphabet and word predicate, and the step order of _check_fs; the translator '
+         'transcribes the pattern parts, str / bytes pattern, the flags and the statements of _check_fs; '
+         'prefilter_src_shape (str pattern, no re.ASCII, regex.search sees the decoded text) and prefilter_complete '
+         '(a file whose decoded text spells the name as a whole word is never filtered out, for every encoding) are '
+         'stated over these constants, with kernel-checked witnesses that matching on the raw bytes / with re.ASCII '
+         'filters out `def étoile()` / `Café = 1`. Stream unicode: identifiers with letters outside ASCII at the '
+         'start / end / middle, CJK, Cyrillic, Greek, case mappings that change length, names not in NFKC normal form, '
+         'combining marks and vowel signs, in files written as UTF-8 with and without BOM, with declared 8-bit and '
+         'multi-byte codecs, with LF / CRLF / CR newlines; judged by the ast oracle on SOURCE spelling and code point '
+         'columns.',
     note='Modelled not verified: os.walk / os.scandir (listing order is a parameter, the shim and the real order are '
-         'both exercised), pathlib suffix (checked stream), the regex pre-filter (parameter `mentions`), '
+         'both exercised), pathlib suffix (checked stream), the regex pre-filter inside projectSearch (parameter `mentions`, '
+         "computed by the harness with python's re on the decoded text; Model.Prefilter models the matching itself with "
+         '`\\w` as a parameter), python_bytes_to_unicode (the decoded text is an input of the model), '
          'get_module_names (the generator supplies the definitions it wrote), str.lower (parameter), step 3 of '
          'Project._search_func beyond the project directory, dotted search strings (inference; only the negative '
          'clause is judged on them), stub-to-python conversion of module hits (trees with .pyi files are judged by the '
@@ -167,7 +183,7 @@ def ordered_tree(mode, top):
         content = ''
         if f == '.gitignore':
             with open(os.path.join(top, f), 'rb') as fh:
-                content = fh.read().decode('latin-1')
+                content = fh.read().decode('utf-8', 'ignore')    # as gitignored_paths decodes its lines
         fl.append({'name': f, 'content': content})
     return {'files': fl, 'dirs': [dict(ordered_tree(mode, os.path.join(top, d)), name=d) for d in dirs]}
 
@@ -1094,6 +1110,9 @@ def plan_unicode(ctx, plan):
         t, stems = CL.gen_unicode_tree(rng, max_files=rng.choice([6, 10, 16]), stubs=stubs)
         if rng.random() < 0.3:
             add_gitignores(rng, t, density=0.2)
+            for _, d in all_dirs(t):
+                for f in d['files']:
+                    f.setdefault('enc', 'utf-8')       # .gitignore entries name non-ASCII folders / files
         has_stub = any(rel.endswith('.pyi') for rel, _ in CL.src_files(t))
         wire = write_wire(t)
         mode = rng.choice(['real', 'sorted', 'reversed', 'shuffle%d' % rng.randint(0, 9)])
@@ -1506,7 +1525,8 @@ def run(ctx):
         'pathlib.PurePath.suffix / .name (modelled, stream suffix); str(Path(p)) == p for the paths os.walk joins '
         '(normalised project root), so the str comparison of the code is string equality on model paths',
         '.gitignore contents are ASCII (bytes.decode(utf-8, ignore) is the identity)',
-        'the regex pre-filter of _check_fs is the parameter `mentions`; get_module_names/_remove_imports/.type are '
+        'the regex pre-filter of _check_fs is the parameter `mentions` of projectSearch (Model.Prefilter.passes models it: '
+        'unicode \\w and python_bytes_to_unicode are parameters there; the end-to-end unicode stream exercises both); get_module_names/_remove_imports/.type are '
         'the generator-known definitions of the generated files (assignments, def, async def, class, for, params)',
         'str.lower is a parameter; dotted search strings (inference) and step 3 beyond the project root are outside the model',
     ]
